@@ -786,7 +786,7 @@ type axiomTerm struct {
 // ---- lemmas: ghost call sequences over contracts only ----
 
 func (w *World) verifyLemma(lm *Lemma) (fr *FuncResult) {
-	e := newExec(w, nil, &Contract{Pkg: lm.Pkg, Tags: lm.Tags, Loops: map[int]*LoopSpec{}, Callbacks: map[string]*CallbackSpec{}})
+	e := newExec(w, nil, &Contract{Pkg: lm.Pkg, Tags: lm.Tags, Loops: map[int]*LoopSpec{}, IterLoops: map[int]*LoopSpec{}, Callbacks: map[string]*CallbackSpec{}})
 	e.name = "lemma " + lm.Pkg.Name() + "." + lm.Name
 	fr = &FuncResult{Func: e.name, Contract: e.con}
 	defer func() {
